@@ -20,11 +20,15 @@
 (*                          pipe until every worker has gone (as found: it  *)
 (*                          leaves at the first sentinel; a worker still    *)
 (*                          writing results blocks for ever; D11b)          *)
+(*   ClearLedgerAtExit      __exit__ forgets the requests whose results     *)
+(*                          were dropped at shutdown (as found: the ledger  *)
+(*                          entries survive exit AND re-entry and occupy    *)
+(*                          capacity for ever; D24)                         *)
 (***************************************************************************)
 EXTENDS Naturals, Sequences, FiniteSets, TLC
 
 CONSTANTS NWk, P, RS, MaxAbandoned, Cycles,
-          CleanupOnFailedStart, StopThroughBuffer, GatherOutlivesWorkers
+          CleanupOnFailedStart, StopThroughBuffer, GatherOutlivesWorkers, ClearLedgerAtExit
 
 VARIABLES
   cfg,      \* [failAt : 0..NWk, ab : 0..MaxAbandoned]  which worker fails in __init__ (0 = none); abandoned inputs
@@ -39,34 +43,35 @@ VARIABLES
   pout,     \* output pipe (sequence of "name" | "fail" | "unit" | "end"); capacity P
   ob,       \* onboarding thread: "off" | "get" | "put" | "done";  obx: item in hand
   obx,
-  g         \* gather thread: "off" | "run" | "done"
+  g,        \* gather thread: "off" | "run" | "done"
+  led       \* ledger (`_uid_to_futures`): number of accepted requests whose result has not been gathered
 
-vars == <<cfg, cycle, phase, spc, k, w, wleft, buf, pin, pout, ob, obx, g>>
+vars == <<cfg, cycle, phase, spc, k, w, wleft, buf, pin, pout, ob, obx, g, led>>
 
 Wk == 1..NWk
 Alive == {i \in Wk : w[i] \notin {"none", "gone", "failed"}}
 \* only payload occupies the pipe; sentinels and handshake items are a few bytes
-Load(q, what) == Cardinality({j \in DOMAIN q : q[j] = what})
-InFull == Load(pin, "item") >= P
-OutFull == Load(pout, "unit") >= P
+Load(q, what) == Cardinality({j \in DOMAIN q : q[j] \in what})
+InFull == Load(pin, {"item"}) >= P
+OutFull == Load(pout, {"unit", "last"}) >= P
 
 Init ==
   /\ cfg \in [failAt : 0..NWk, ab : 0..MaxAbandoned]
   /\ cycle = 1 /\ phase = "idle" /\ spc = "enter" /\ k = 0
   /\ w = [i \in Wk |-> "none"] /\ wleft = [i \in Wk |-> 0]
-  /\ buf = <<>> /\ pin = <<>> /\ pout = <<>> /\ ob = "off" /\ obx = "none" /\ g = "off"
+  /\ buf = <<>> /\ pin = <<>> /\ pout = <<>> /\ ob = "off" /\ obx = "none" /\ g = "off" /\ led = 0
 
 -----------------------------------------------------------------------------
 (* START: `servlet.start` launches the workers one by one and waits for each handshake                   *)
 Enter ==
   /\ phase = "idle" /\ spc = "enter"
   /\ phase' = "starting" /\ spc' = "spawn" /\ k' = 1
-  /\ UNCHANGED <<cfg, cycle, w, wleft, buf, pin, pout, ob, obx, g>>
+  /\ UNCHANGED <<cfg, cycle, w, wleft, buf, pin, pout, ob, obx, g, led>>
 
 Spawn ==
   /\ phase = "starting" /\ spc = "spawn" /\ k <= NWk
   /\ w' = [w EXCEPT ![k] = "init"] /\ spc' = "await"
-  /\ UNCHANGED <<cfg, cycle, phase, k, wleft, buf, pin, pout, ob, obx, g>>
+  /\ UNCHANGED <<cfg, cycle, phase, k, wleft, buf, pin, pout, ob, obx, g, led>>
 
 \* Worker.run: __init__ succeeds (puts its name) or fails (puts None and dies); only the first cycle may fail
 WInit(i) ==
@@ -74,7 +79,7 @@ WInit(i) ==
   /\ IF cfg.failAt = i /\ cycle = 1
        THEN w' = [w EXCEPT ![i] = "failed"] /\ pout' = Append(pout, "fail")
        ELSE w' = [w EXCEPT ![i] = "take"] /\ pout' = Append(pout, "name")
-  /\ UNCHANGED <<cfg, cycle, phase, spc, k, wleft, buf, pin, ob, obx, g>>
+  /\ UNCHANGED <<cfg, cycle, phase, spc, k, wleft, buf, pin, ob, obx, g, led>>
 
 \* `name = q_out.get()`
 Await ==
@@ -83,21 +88,21 @@ Await ==
   /\ IF Head(pout) = "name"
        THEN IF k < NWk THEN k' = k + 1 /\ spc' = "spawn" ELSE k' = k /\ spc' = "helpers"
        ELSE k' = k /\ spc' = IF CleanupOnFailedStart /\ Alive # {} THEN "cleanup" ELSE "raise"
-  /\ UNCHANGED <<cfg, cycle, phase, w, wleft, buf, pin, ob, obx, g>>
+  /\ UNCHANGED <<cfg, cycle, phase, w, wleft, buf, pin, ob, obx, g, led>>
 
 \* repaired: `q_in.put(None)`, join the started workers, then raise
 Cleanup ==
   /\ phase = "starting" /\ spc = "cleanup"
   /\ pin' = Append(pin, "end") /\ spc' = "cleanjoin"
-  /\ UNCHANGED <<cfg, cycle, phase, k, w, wleft, buf, pout, ob, obx, g>>
+  /\ UNCHANGED <<cfg, cycle, phase, k, w, wleft, buf, pout, ob, obx, g, led>>
 CleanJoin ==
   /\ phase = "starting" /\ spc = "cleanjoin" /\ Alive = {}
   /\ spc' = "raise"
-  /\ UNCHANGED <<cfg, cycle, phase, k, w, wleft, buf, pin, pout, ob, obx, g>>
+  /\ UNCHANGED <<cfg, cycle, phase, k, w, wleft, buf, pin, pout, ob, obx, g, led>>
 EnterRaise ==
   /\ phase = "starting" /\ spc = "raise"
   /\ phase' = "enterfailed"
-  /\ UNCHANGED <<cfg, cycle, spc, k, w, wleft, buf, pin, pout, ob, obx, g>>
+  /\ UNCHANGED <<cfg, cycle, spc, k, w, wleft, buf, pin, pout, ob, obx, g, led>>
 
 \* all workers ready: onboarding thread and gather thread start; the workload runs and leaves `ab` abandoned inputs
 \* in the onboarding buffer
@@ -105,6 +110,7 @@ Helpers ==
   /\ phase = "starting" /\ spc = "helpers"
   /\ phase' = "running" /\ ob' = "get" /\ g' = "run" /\ spc' = "exit"
   /\ buf' = [j \in 1..cfg.ab |-> "item"]
+  /\ led' = led + cfg.ab          \* the abandoned requests keep their ledger entries until their results come back
   /\ UNCHANGED <<cfg, cycle, k, w, wleft, pin, pout, obx>>
 
 -----------------------------------------------------------------------------
@@ -112,11 +118,11 @@ Helpers ==
 ObGet ==
   /\ ob = "get" /\ buf # <<>>
   /\ obx' = Head(buf) /\ buf' = Tail(buf) /\ ob' = "put"
-  /\ UNCHANGED <<cfg, cycle, phase, spc, k, w, wleft, pin, pout, g>>
+  /\ UNCHANGED <<cfg, cycle, phase, spc, k, w, wleft, pin, pout, g, led>>
 ObPut ==
   /\ ob = "put" /\ (obx = "end" \/ ~InFull)
   /\ pin' = Append(pin, obx) /\ ob' = (IF obx = "end" THEN "done" ELSE "get") /\ obx' = "none"
-  /\ UNCHANGED <<cfg, cycle, phase, spc, k, w, wleft, buf, pout, g>>
+  /\ UNCHANGED <<cfg, cycle, phase, spc, k, w, wleft, buf, pout, g, led>>
 
 (* WORKERS                                                                                                *)
 WTake(i) ==
@@ -124,67 +130,69 @@ WTake(i) ==
   /\ pin' = Tail(pin)
   /\ IF Head(pin) = "end" THEN w' = [w EXCEPT ![i] = "rebroadcast"] /\ wleft' = wleft
                           ELSE w' = [w EXCEPT ![i] = "res"] /\ wleft' = [wleft EXCEPT ![i] = RS]
-  /\ UNCHANGED <<cfg, cycle, phase, spc, k, buf, pout, ob, obx, g>>
+  /\ UNCHANGED <<cfg, cycle, phase, spc, k, buf, pout, ob, obx, g, led>>
 \* the result (RS units) goes into the output pipe
 WRes(i) ==
   /\ w[i] = "res" /\ ~OutFull
-  /\ pout' = Append(pout, "unit")
+  /\ pout' = Append(pout, IF wleft[i] = 1 THEN "last" ELSE "unit")
   /\ wleft' = [wleft EXCEPT ![i] = @ - 1]
   /\ w' = [w EXCEPT ![i] = IF wleft[i] = 1 THEN "take" ELSE "res"]
-  /\ UNCHANGED <<cfg, cycle, phase, spc, k, buf, pin, ob, obx, g>>
+  /\ UNCHANGED <<cfg, cycle, phase, spc, k, buf, pin, ob, obx, g, led>>
 \* sentinel: `q_in.put(None)` for a fellow worker, `q_out.put(None)`, exit
 WRebroadcast(i) ==
   /\ w[i] = "rebroadcast"
   /\ pin' = Append(pin, "end") /\ w' = [w EXCEPT ![i] = "forward"]
-  /\ UNCHANGED <<cfg, cycle, phase, spc, k, wleft, buf, pout, ob, obx, g>>
+  /\ UNCHANGED <<cfg, cycle, phase, spc, k, wleft, buf, pout, ob, obx, g, led>>
 WForward(i) ==
   /\ w[i] = "forward"
   /\ pout' = Append(pout, "end") /\ w' = [w EXCEPT ![i] = "gone"]
-  /\ UNCHANGED <<cfg, cycle, phase, spc, k, wleft, buf, pin, ob, obx, g>>
+  /\ UNCHANGED <<cfg, cycle, phase, spc, k, wleft, buf, pin, ob, obx, g, led>>
 
 (* GATHER THREAD                                                                                          *)
 Gather ==
   /\ g = "run" /\ pout # <<>> /\ phase \in {"running", "exiting"}
   /\ pout' = Tail(pout)
   /\ g' = IF Head(pout) = "end" /\ (~GatherOutlivesWorkers \/ Alive = {}) THEN "done" ELSE "run"
+  /\ led' = IF Head(pout) = "last" THEN led - 1 ELSE led     \* a complete result: `_uid_to_futures.pop(uid)`
   /\ UNCHANGED <<cfg, cycle, phase, spc, k, w, wleft, buf, pin, ob, obx>>
 \* repaired: with every worker gone and the pipe drained the gather thread is told to leave
 GatherRelease ==
   /\ GatherOutlivesWorkers /\ g = "run" /\ pout = <<>> /\ Alive = {} /\ phase = "exiting" /\ spc = "joing"
   /\ g' = "done"
-  /\ UNCHANGED <<cfg, cycle, phase, spc, k, w, wleft, buf, pin, pout, ob, obx>>
+  /\ UNCHANGED <<cfg, cycle, phase, spc, k, w, wleft, buf, pin, pout, ob, obx, led>>
 
 -----------------------------------------------------------------------------
 (* EXIT: `__exit__`                                                                                       *)
 Exit ==
   /\ phase = "running" /\ spc = "exit"
   /\ phase' = "exiting" /\ spc' = IF StopThroughBuffer THEN "bufend" ELSE "pinend"
-  /\ UNCHANGED <<cfg, cycle, k, w, wleft, buf, pin, pout, ob, obx, g>>
+  /\ UNCHANGED <<cfg, cycle, k, w, wleft, buf, pin, pout, ob, obx, g, led>>
 \* `self._input_buffer.put(None)` (never blocks)
 BufEnd ==
   /\ phase = "exiting" /\ spc = "bufend"
   /\ buf' = Append(buf, "end") /\ spc' = "joinob"
-  /\ UNCHANGED <<cfg, cycle, phase, k, w, wleft, pin, pout, ob, obx, g>>
+  /\ UNCHANGED <<cfg, cycle, phase, k, w, wleft, pin, pout, ob, obx, g, led>>
 JoinOb ==
   /\ phase = "exiting" /\ spc = "joinob" /\ ob = "done"
   /\ spc' = IF StopThroughBuffer THEN "pinend" ELSE "finish"
-  /\ UNCHANGED <<cfg, cycle, phase, k, w, wleft, buf, pin, pout, ob, obx, g>>
+  /\ UNCHANGED <<cfg, cycle, phase, k, w, wleft, buf, pin, pout, ob, obx, g, led>>
 \* `servlet.stop()`: `self._q_in.put(None)` then join the workers
 PinEnd ==
   /\ phase = "exiting" /\ spc = "pinend"
   /\ pin' = Append(pin, "end") /\ spc' = "joinw"
-  /\ UNCHANGED <<cfg, cycle, phase, k, w, wleft, buf, pout, ob, obx, g>>
+  /\ UNCHANGED <<cfg, cycle, phase, k, w, wleft, buf, pout, ob, obx, g, led>>
 JoinW ==
   /\ phase = "exiting" /\ spc = "joinw" /\ Alive = {}
   /\ spc' = "joing"
-  /\ UNCHANGED <<cfg, cycle, phase, k, w, wleft, buf, pin, pout, ob, obx, g>>
+  /\ UNCHANGED <<cfg, cycle, phase, k, w, wleft, buf, pin, pout, ob, obx, g, led>>
 JoinG ==
   /\ phase = "exiting" /\ spc = "joing" /\ g = "done"
   /\ spc' = IF StopThroughBuffer THEN "finish" ELSE "bufend"
-  /\ UNCHANGED <<cfg, cycle, phase, k, w, wleft, buf, pin, pout, ob, obx, g>>
+  /\ UNCHANGED <<cfg, cycle, phase, k, w, wleft, buf, pin, pout, ob, obx, g, led>>
 Finish ==
   /\ phase = "exiting" /\ spc = "finish"
   /\ phase' = "exited"
+  /\ led' = IF ClearLedgerAtExit THEN 0 ELSE led
   /\ UNCHANGED <<cfg, cycle, spc, k, w, wleft, buf, pin, pout, ob, obx, g>>
 \* the same server object is entered again: fresh queues
 Reenter ==
@@ -192,7 +200,7 @@ Reenter ==
   /\ cycle' = cycle + 1 /\ phase' = "idle" /\ spc' = "enter" /\ k' = 0
   /\ w' = [i \in Wk |-> "none"] /\ wleft' = [i \in Wk |-> 0]
   /\ buf' = <<>> /\ pin' = <<>> /\ pout' = <<>> /\ ob' = "off" /\ obx' = "none" /\ g' = "off"
-  /\ UNCHANGED cfg
+  /\ UNCHANGED <<cfg, led>>       \* the ledger belongs to the server object: it survives re-entry
 
 Terminal == (phase = "exited" /\ cycle = Cycles) \/ phase = "enterfailed"
 Next ==
@@ -213,8 +221,13 @@ AllOrNothing ==
 ExitComplete == phase = "exited" => Alive = {} /\ ob = "done" /\ g = "done"
 \* C11: leaving (and a failed enter) always completes: TLC's deadlock check + this liveness property under fairness
 Completes == <>Terminal
-PipeBounds == Load(pin, "item") <= P /\ Load(pout, "unit") <= P
+PipeBounds == Load(pin, {"item"}) <= P /\ Load(pout, {"unit", "last"}) <= P
 
+\* C11 / C06: an exited server has given every slot back; what is left would occupy capacity after re-entry for ever
+LedgerEmptyAfterExit == phase = "exited" => led = 0
+LedgerSane == led >= 0 /\ led <= Cycles * MaxAbandoned
+
+Trap_ResultDroppedAtExit == ~(phase = "exiting" /\ spc = "finish" /\ led > 0)
 Trap_OnboardBlockedAfterWorkersGone == ~(ob = "put" /\ InFull /\ Alive = {} /\ phase = "exiting")
 Trap_WorkerBlockedAfterGatherGone == ~(\E i \in Wk : w[i] = "res" /\ OutFull /\ g = "done")
 Trap_SecondCycle == ~(cycle = 2 /\ phase = "running")
